@@ -331,6 +331,22 @@ fn do_wop<W: TW, B: AsRef<[W]> + AsMut<[W]>>(c: &mut Case, opname: &str, b: &mut
     let width = BitFieldSliceCore::<W>::bit_width(b);
     let mask = mask128(width);
     let len = blen(b);
+    // the sequence of chunks handed out must be the one a vector with the same
+    // logical contents over exact-size fresh storage hands out
+    if let WOp::ChunkSet(cs, _) | WOp::ChunkReset(cs, _) | WOp::ChunkApply(cs, _) = op {
+        let lens = catch(|| {
+            let mut clean = BitFieldVec::<W>::new(width, len);
+            for i in 0..len {
+                clean.set(i, b.get(i));
+            }
+            let dirty_lens: Vec<usize> = b.try_chunks_mut(*cs).map(|it| it.take(len + 70).map(|ch| BitFieldSliceCore::<W>::len(&ch)).collect()).unwrap_or_default();
+            let clean_lens: Vec<usize> = clean.try_chunks_mut(*cs).map(|it| it.take(len + 70).map(|ch| BitFieldSliceCore::<W>::len(&ch)).collect()).unwrap_or_default();
+            (dirty_lens, clean_lens)
+        });
+        if let Ok((dl, cl)) = lens {
+            c.check(opname, dl == cl, || format!("try_chunks_mut({}) hands out chunks of lengths {:?} but over exact-size clean storage {:?}; {}", cs, dl, cl, what));
+        }
+    }
     let r = catch(|| match op {
         WOp::Set(ws) => {
             for &(i, v) in ws {
